@@ -494,7 +494,7 @@ pub fn expected_children(p: &Program, a: &ArrayDef) -> Vec<(String, (i64, i64), 
 // Judging one program over a set of listings
 // ---------------------------------------------------------------------------------------------
 
-fn permutations(n: usize) -> Vec<Vec<usize>> {
+pub fn permutations(n: usize) -> Vec<Vec<usize>> {
     fn rec(cur: &mut Vec<usize>, used: &mut Vec<bool>, n: usize, out: &mut Vec<Vec<usize>>) {
         if cur.len() == n {
             out.push(cur.clone());
